@@ -114,8 +114,10 @@ def check_filtered_indices(ctx):
                 nm = s.targets[0].id
                 for c in fv.calls():
                     if isinstance(c.func, ast.Attribute) and c.func.attr == "append" and U(c.func.value) == nm:
-                        g = si.guards(c)
-                        if g and si.enclosing(c, (ast.For, ast.While)):
+                        lpq_ = si.enclosing(c, (ast.For, ast.While))
+                        # explicit `if` around the append or an earlier `if …: continue` of the same loop body
+                        g = [t for t, _p in si.effective_guards(c) if lpq_ is not None and any(x is t for x in ast.walk(lpq_[0]))]
+                        if g and lpq_:
                             cands.add(nm)
         for nm in sorted(cands):
             for c in fv.calls():
